@@ -31,8 +31,8 @@ func init() {
 		"(*sync.RWMutex).Lock": func(it *Interp, a []Value) Value {
 			p := a[0].(Ptr)
 			it.preemptPoint()
-			it.visible("lock", "mu"+ptrKey(p))
 			st := it.rw(p)
+			it.visibleWhen("lock", "mu"+ptrKey(p), func() bool { return !st.writer && st.readers == 0 })
 			it.block("rwmutex", func() bool { return !st.writer && st.readers == 0 }, nil)
 			st.writer = true
 			return nil
@@ -50,8 +50,8 @@ func init() {
 		"(*sync.RWMutex).RLock": func(it *Interp, a []Value) Value {
 			p := a[0].(Ptr)
 			it.preemptPoint()
-			it.visible("lock", "mu"+ptrKey(p))
 			st := it.rw(p)
+			it.visibleWhen("lock", "mu"+ptrKey(p), func() bool { return !st.writer })
 			it.block("rwmutex(read)", func() bool { return !st.writer }, nil)
 			st.readers++
 			return nil
